@@ -58,26 +58,42 @@ def type_info(t):
     return getattr(t, "__name__", repr(t)), []
 
 
-def raw_actions(parser):
+def option_rows(parser):
+    """The option table as plain data (one dict per action, -h/--help excluded): the rows that
+    `raw_actions` prints.  Also used by props/c20.py to build its reference argparse parser."""
     groups = parser._mutually_exclusive_groups
     rows = []
     for a in parser._actions:
         kind = ACTIONS.get(type(a).__name__, "unsupported:" + type(a).__name__)
         if kind == "help":
-            continue  # -h/--help: prints and exits; outside the fragment of C20
+            continue  # -h/--help: prints and exits; its option strings are in `help_flags`
         mutex = None
         for gi, g in enumerate(groups):
             if any(a is b for b in g._group_actions):
                 mutex = gi
         tname, dom = type_info(a.type)
         nargs = "none" if a.nargs is None else str(a.nargs)
+        rows.append({"flags": list(a.option_strings), "dest": a.dest, "action": kind, "typ": tname, "dom": dom,
+                     "default": a.default, "choices": None if a.choices is None else list(a.choices),
+                     "nargs": nargs, "required": bool(a.required), "mutex": mutex})
+    return rows
+
+
+def help_flags(parser):
+    """Option strings of the parser's help action(s) (prefix matching and clusters see them)."""
+    return [s for a in parser._actions if type(a).__name__ == "_HelpAction" for s in a.option_strings]
+
+
+def raw_actions(parser):
+    rows = []
+    for r in option_rows(parser):
         rows.append(
             "  { flags := %s, dest := %s, action := %s, typ := %s, typeDomain := %s, default := %s,\n"
             "    choices := %s, nargs := %s, required := %s, mutex := %s }"
             % (
-                llist(a.option_strings), lstr(a.dest), lstr(kind), lstr(tname), llist(dom), rawval(a.default),
-                lopt(a.choices, lambda cs: llist(list(cs), rawval)), lstr(nargs), lbool(bool(a.required)),
-                lopt(mutex, str),
+                llist(r["flags"]), lstr(r["dest"]), lstr(r["action"]), lstr(r["typ"]), llist(r["dom"]), rawval(r["default"]),
+                lopt(r["choices"], lambda cs: llist(list(cs), rawval)), lstr(r["nargs"]), lbool(r["required"]),
+                lopt(r["mutex"], str),
             )
         )
     return "[\n" + ",\n".join(rows) + "\n]"
@@ -118,5 +134,13 @@ def tables():
         "/-- `TomlArgumentType.<member>.is_valid(<probe>)` evaluated on the live enum: (member, repr(probe), verdict). -/",
         f"def isValidProbes : List (String × String × Bool) := {llist(verdicts, triple)}\n",
         "/-- prefix_chars of both parsers. -/",
-        f"def prefixChars : List String := {llist([cli.prefix_chars, toml.prefix_chars])}",
+        f"def prefixChars : List String := {llist([cli.prefix_chars, toml.prefix_chars])}\n",
+        "/-- option strings of the help action of `make_cli_parser()` (abbreviations and clusters can resolve to them). -/",
+        f"def cliHelpFlags : List String := {llist(help_flags(cli))}\n",
+        "/-- option strings of the help action of `make_toml_parser()`. -/",
+        f"def tomlHelpFlags : List String := {llist(help_flags(toml))}\n",
+        "/-- `allow_abbrev` of both parsers (unique long-option prefixes are accepted). -/",
+        f"def allowAbbrev : List Bool := {llist([bool(cli.allow_abbrev), bool(toml.allow_abbrev)], lbool)}\n",
+        "/-- `fromfile_prefix_chars` is unset on both parsers (no `@file` expansion). -/",
+        f"def noFromFile : Bool := {lbool(cli.fromfile_prefix_chars is None and toml.fromfile_prefix_chars is None)}",
     ]
